@@ -10,7 +10,38 @@
 #include "momo/details/HashBucketOne.h"
 using namespace momo;
 typedef unsigned long long ull;
-typedef HashSetItemTraits<uint64_t, MemManagerDefault> IT;
+// Third build (-DC12_LOWMEM -DMOMO_MEM_MANAGER_PTR_USEFUL_BIT_COUNT=32 -no-pie): 32-bit BucketLimP4PtrState, hashCount = 8.
+// Every pointer momo stores must then fit in 32 bits (MemManagerProxy::pvCheckBits asserts it): all momo allocations go
+// through a bump allocator over an mmap(MAP_32BIT) arena (below 2 GiB); the executable is linked non-PIE so that the static
+// item buffer used by the bucket-level cases is low as well.
+#ifdef C12_LOWMEM
+#include <sys/mman.h>
+class LowMem
+{
+public:
+	explicit LowMem() noexcept {}
+	LowMem(LowMem&&) noexcept {}
+	LowMem(const LowMem&) noexcept {}
+	~LowMem() = default;
+	LowMem& operator=(const LowMem&) = delete;
+	void* Allocate(size_t size)
+	{
+		static const size_t arena = size_t(3) << 28;
+		static char* base = static_cast<char*>(mmap(nullptr, arena, PROT_READ | PROT_WRITE,
+			MAP_PRIVATE | MAP_ANONYMOUS | MAP_32BIT | MAP_NORESERVE, -1, 0));
+		static size_t off = 0;
+		if (base == MAP_FAILED) throw std::bad_alloc();
+		size = (size + 15) & ~size_t(15);
+		if (off + size > arena) throw std::bad_alloc();
+		void* p = base + off; off += size; return p;
+	}
+	void Deallocate(void*, size_t) noexcept {}
+};
+typedef LowMem MM;
+#else
+typedef MemManagerDefault MM;
+#endif
+typedef HashSetItemTraits<uint64_t, MM> IT;
 typedef internal::BucketOpen2N2<IT, 3, true> O2;
 typedef internal::BucketLimP4<IT, 4, MemPoolParams<>, true> P4;
 typedef internal::BucketOne<IT, 1> One;
@@ -22,7 +53,7 @@ template<class B> struct Raw {   // storage that is never destroyed (destructors
 	Raw() { b = new (buf) B(); }
 };
 
-static MemManagerDefault g_mm;
+static MM g_mm;
 static O2::Params g_o2params(g_mm);
 static One::Params g_oneparams(g_mm);
 static P4::Params& p4params() { static P4::Params* p = new P4::Params(g_mm); return *p; }
@@ -95,7 +126,7 @@ template<class T> struct Spec<internal::BucketOne<T, 1>> {
 template<class HashBucket> static void runSet(std::istringstream& is)
 {
 	typedef TraitsL<HashBucket> Traits;
-	typedef HashSet<uint64_t, Traits> Set;
+	typedef HashSet<uint64_t, Traits, MM> Set;
 	typedef typename Set::Bucket Bucket;
 	ull startLog; is >> g_mode >> g_param >> startLog;
 	Set set{Traits(size_t(startLog))};
@@ -300,7 +331,7 @@ int main()
 			// (optionally with a hash functor that throws after `budget` calls: the old generation stays chained), optional Reserve to
 			// 2^L2 (relocates the older generation L0 -> L2 directly, then L1 -> L2); dump the final layout + number of full-hash calls
 			typedef TraitsL<HashBucketOpen2N2<>> Traits;
-			typedef HashSet<uint64_t, Traits> Set;
+			typedef HashSet<uint64_t, Traits, MM> Set;
 			ull L, L1, L2 = 0, nrem = 0, h; long long budget = -1;
 			is >> L >> L1; if (cmd == "tbl2") is >> L2 >> budget >> nrem;
 			std::vector<ull> rem; for (ull k = 0; k < nrem; ++k) { is >> h; rem.push_back(h); }
@@ -337,7 +368,7 @@ int main()
 		else if (cmd == "tone")
 		{	// real HashSet<.., HashBucketOne<>>: 2^L buckets, keys 1..n, removals, Reserve to 2^L1; dump mHashState / key of every used bucket
 			typedef TraitsL<HashBucketOne<>> Traits;
-			typedef HashSet<uint64_t, Traits> Set;
+			typedef HashSet<uint64_t, Traits, MM> Set;
 			ull L, L1, nrem, h; is >> L >> L1 >> nrem;
 			std::vector<ull> rem; for (ull k = 0; k < nrem; ++k) { is >> h; rem.push_back(h); }
 			g_mode = 9; g_table.assign(1, 0); while (is >> h) g_table.push_back(h);
@@ -366,7 +397,7 @@ int main()
 		else if (cmd == "tp4" || cmd == "tp4c")
 		{	// real HashSet<.., HashBucketLimP4<>>: 2^L buckets, keys 1..n, removals, Reserve to 2^L1; dump layout incl. memPoolIndex (WasFull)
 			typedef TraitsL<HashBucketLimP4<>> Traits;
-			typedef HashSet<uint64_t, Traits> Set;
+			typedef HashSet<uint64_t, Traits, MM> Set;
 			typedef Set::Bucket B;
 			ull hc, L, L1, L2 = 0, nrem, h; long long budget = -1; is >> hc >> L >> L1;
 			if (cmd == "tp4c") is >> L2 >> budget;
